@@ -4,6 +4,7 @@
    inductive datatypes; no Extract Constant. *)
 From Coq Require Import Extraction ExtrOcamlBasic NArith List.
 From AV Require Import Generated.Table Spec.Utf8 Spec.Vt Spec.Strip Model.Base Model.Utf8parse Model.Parser Model.Strip.
+From AV Require Import Generated.Palette Spec.Lossy Model.Lossy.
 
 Extraction Language OCaml.
 
@@ -13,4 +14,6 @@ Extraction "../ocaml/gen/extracted.ml"
   Spec.Vt.vt_step Spec.Vt.vt_init
   Spec.Strip.spec_strip Spec.Strip.strip_step Spec.Strip.s_init Spec.Utf8.valid_utf8
   Model.Strip.strip_bytes_pieces Model.Strip.strip_str_pieces Model.Strip.strip_bytes_chunks Model.Strip.strip_str_chunks
+  Model.Lossy.lossy_m_rgb_to_ansi Model.Lossy.lossy_m_rgb_to_xterm Model.Lossy.lossy_m_obs_index Model.Lossy.lossy_m_obs_ansi Model.Lossy.lossy_m_obs_rgb
+  Spec.Lossy.lossy_s_rgb_to_ansi Spec.Lossy.lossy_s_rgb_to_xterm Spec.Lossy.lossy_s_obs_index Spec.Lossy.lossy_s_obs_ansi Spec.Lossy.lossy_s_obs_rgb
   Model.Utf8parse.u8_new.
